@@ -4,6 +4,9 @@ import TpmProofs.StreamSilent
 import TpmProofs.PosInp
 import TpmProofs.Props.C14S
 import TpmProofs.MsgPump
+import TpmProofs.WarnNC
+import TpmProofs.MsgNoCrash
+import TpmProofs.Props.C06
 /-!
 # C09 — a stream of ARBITRARY messages decodes as its messages decoded one by one (either mode)
 
@@ -339,5 +342,28 @@ theorem c09_every_stream_run (abort : Bool) (x : List Byte) :
     subst hv
     simp only [stOf, resOf, Top.isStream]
     by_cases hb : (pumpEvents true x.length s.out [] none).2.2 = true <;> simp [hb]
+
+end C09
+
+namespace C09
+
+/-- the iteration never runs out of fuel and never ends in an internal error of its own: the only internal error it can report is
+the known assertion of `process_response` (either mode, every input) — so `c09_every_stream` describes every stream decode by
+outcomes the decoder documents -/
+theorem c09_iteration_total (abort : Bool) (x : List Byte) (c m : String) (p : Nat) (o : List (Nat × Event))
+    (h : iterMsgs abort Generated.msgTables rootPath (x.length + 1) x 0 [] = .error (.crash c m, p, o)) : isMismatch c m := by
+  rw [← c09_every_stream] at h
+  have hncx : NCX (runWalker abort Generated.msgTables .stream x) := by
+    unfold runWalker
+    cases abort with
+    | true => exact decodeStream_ncx Generated.msgTables C06.c06_msg_tables.1 C06.c06_msg_tables.2 rootPath _ _ (by simp [initSt])
+    | false => exact decodeStream_ncxw Generated.msgTables C06.c06_msg_tables.1 rootPath _ _ (by simp [initSt])
+  cases hr : runWalker abort Generated.msgTables .stream x with
+  | ok vs => rw [hr] at h; obtain ⟨v, s⟩ := vs; simp [projR] at h
+  | error es =>
+    obtain ⟨e, s⟩ := es
+    rw [hr] at h
+    simp only [projR, Except.error.injEq, Prod.mk.injEq] at h
+    exact hncx c m s (by rw [hr, h.1])
 
 end C09
